@@ -355,7 +355,7 @@ func (u *Unit) execInstr(fr *frame, st *State, ins ssa.Instruction) {
 		}
 		u.closureN++
 		cv.ID = u.ctx.Const(fmt.Sprintf("closure:%s#%d", fn.Name(), u.closureN), SInt)
-		u.ctx.Assert(Eq(cv.ID, IntLit(int64(-1000000-u.closureN))), "closure-identity")
+		u.ctx.Assert(Eq(cv.ID, IntLit(int64(1000000000+u.closureN))), "closure-identity")
 		u.closures[cv.ID.S] = cv
 		st.Env[x] = cv
 	case *ssa.Call:
@@ -1090,7 +1090,11 @@ func (u *Unit) execSlice(st *State, x *ssa.Slice) Value {
 			if x.High != nil {
 				hi = u.asSc(u.val(st, x.High), nil).T
 			}
-			return SliceV{b.T, lo, Arith("-", hi, lo), at.Elem()}
+			ln := Arith("-", hi, lo)
+			if lo.S == "0" {
+				ln = hi
+			}
+			return SliceV{b.T, lo, ln, at.Elem()}
 		}
 		if isStringType(x.X.Type()) {
 			f := u.ctx.Fun("substr", []string{SStr, SInt, SInt}, SStr)
